@@ -689,6 +689,140 @@ func concScenario(reg int, bounds []int) explore.Scenario {
 	}
 }
 
+// twoRegistrars: two registrations race on a started runtime. Every schedule must equal one of the two
+// sequential orders: verdicts, exported graph, and who is woken afterwards.
+func twoRegistrars(da, db decl, bounds []int) explore.Scenario {
+	ds := decls()
+	return explore.Scenario{
+		Name:   fmt.Sprintf("conc/register-%s(%v)-vs-register-%s(%v)", da.name, da.outputs, db.name, db.outputs),
+		Desc:   fmt.Sprintf("runtime started with c1; %s and %s are registered concurrently; every schedule up to the bound: the two verdicts and the exported graph equal one of the two sequential orders of the model, nothing panics, a later write wakes exactly the model's dependents", da.name, db.name),
+		Bounds: bounds,
+		HB:     true,
+		Body: func(x *explore.X) {
+			ctx, cancel := vctx.WithCancel(context.Background())
+			st := state.WrapCore(namespaced.NewState(inmem.Build))
+			rt, err := runtime.NewRuntime(st, zap.NewNop(), options.WithMetrics(false))
+			if err != nil {
+				panic(err)
+			}
+			vrt.Branching(false)
+			m0 := newDBModel()
+			reg0 := map[string]bool{}
+			c1 := &px.Probe{NameV: "c1", InputsV: ds[0].inputs, OutputsV: ds[0].outputs}
+			if err := rt.RegisterController(c1); err != nil {
+				panic(err)
+			}
+			accept(m0, reg0, ds[0])
+			runDone := false
+			vrt.GoNamed("runtime.Run", func() { rt.Run(ctx); runDone = true }) //nolint:errcheck
+			vrt.WaitQuiescent()
+			vrt.Branching(true)
+			errs := [2]error{}
+			probes := map[string]*px.Probe{"c1": c1}
+			qprobes := map[string]*px.QProbe{}
+			for i, d := range []decl{da, db} {
+				vrt.GoNamed("registrar-"+d.name, func() {
+					vrt.TouchKey("c17.reg", true)
+					if d.q {
+						qp := &px.QProbe{NameV: d.name, SettingsV: controller.QSettings{Inputs: d.inputs, Outputs: d.outputs}}
+						if d.conc == -1 {
+							qp.SettingsV.Concurrency = optional.Some(uint(0))
+						}
+						qp.OnMap = func(context.Context, controller.QRuntime, controller.ReducedResourceMetadata) ([]resource.Pointer, error) {
+							return nil, nil
+						}
+						errs[i] = rt.RegisterQController(qp)
+						vrt.TouchKey("c17.reg", true)
+						if errs[i] == nil {
+							qprobes[d.name] = qp
+						}
+					} else {
+						p := &px.Probe{NameV: d.name, InputsV: d.inputs, OutputsV: d.outputs}
+						errs[i] = rt.RegisterController(p)
+						vrt.TouchKey("c17.reg", true)
+						if errs[i] == nil {
+							probes[d.name] = p
+						}
+					}
+				})
+			}
+			vrt.WaitQuiescent()
+			vrt.Branching(false)
+			vrt.TouchKey("c17.reg", true)
+			vrt.TouchKey("px.records", false)
+			g, gerr := rt.GetDependencyGraph()
+			if gerr != nil {
+				x.FailKey("conc2/graph", "graph export failed: %v", gerr)
+				return
+			}
+			got := strings.Join(graphEdges(g), "; ")
+			var m *dbModel
+			var why []string
+			for _, order := range [][2]int{{0, 1}, {1, 0}} {
+				mm := newDBModel()
+				rr := map[string]bool{}
+				accept(mm, rr, ds[0])
+				want := [2]bool{}
+				for _, k := range order {
+					want[k] = accept(mm, rr, []decl{da, db}[k])
+				}
+				if (errs[0] == nil) != want[0] || (errs[1] == nil) != want[1] {
+					why = append(why, fmt.Sprintf("order %v gives accepted=%v", order, want))
+					continue
+				}
+				if got != mm.canon() {
+					why = append(why, fmt.Sprintf("order %v matches the verdicts but its graph is {%s}", order, mm.canon()))
+					continue
+				}
+				m = mm
+				break
+			}
+			if m == nil {
+				x.FailKey("conc2/not-serializable", "concurrent registration of %s (err=%v) and %s (err=%v): graph {%s}; no sequential order explains it (%s)", da.name, errs[0], db.name, errs[1], got, strings.Join(why, "; "))
+				cancel()
+				vrt.WaitQuiescent()
+				return
+			}
+			x.Outcome("a=%v b=%v", errs[0] == nil, errs[1] == nil)
+			before := map[string]int{}
+			for n, p := range probes {
+				before[n] = p.Reconciles
+			}
+			qbefore := map[string]int{}
+			for n, p := range qprobes {
+				qbefore[n] = len(p.Reconciles) + len(p.Maps)
+			}
+			if err := st.Create(ctx, conformance.NewIntResource(hx.NS, "a", 1)); err != nil {
+				panic(err)
+			}
+			vrt.WaitQuiescent()
+			vrt.TouchKey("px.records", false)
+			wantWoken := map[string]bool{}
+			for _, c := range m.dependents(hx.NS, string(t1), "a") {
+				wantWoken[c] = true
+			}
+			for n, p := range probes {
+				if k, ok := m.inputs[n][inKey{hx.NS, string(t1), "", false}]; ok && k == controller.InputDestroyReady && len(m.inputs[n]) == 1 {
+					continue
+				}
+				if woken := p.Reconciles > before[n]; woken != wantWoken[n] {
+					x.FailKey("conc2/wake", "after concurrent registration of %s and %s: write to %s/a: controller %s woken=%v, expected %v (graph {%s})", da.name, db.name, t1, n, woken, wantWoken[n], m.canon())
+				}
+			}
+			for n, p := range qprobes {
+				if woken := len(p.Reconciles)+len(p.Maps) > qbefore[n]; woken != wantWoken[n] {
+					x.FailKey("conc2/wake", "after concurrent registration of %s and %s: write to %s/a: queue controller %s notified=%v, expected %v", da.name, db.name, t1, n, woken, wantWoken[n])
+				}
+			}
+			cancel()
+			vrt.WaitQuiescent()
+			if !runDone {
+				x.FailKey("conc2/shutdown", "Run did not return after cancel")
+			}
+		},
+	}
+}
+
 func apiScenario(first int, maxLen int) explore.Scenario {
 	ds := decls()
 	return explore.Scenario{
@@ -773,6 +907,29 @@ func build(tier string) []explore.Scenario {
 				sc.Bounds = []int{0, 1}
 				sc.MaxExecs = 6000000
 			}
+		}
+		out = append(out, sc)
+	}
+	// two racing registrations: conflicting outputs (c5/c6 vs c2, exclusive vs shared on o1/o2), same name, a
+	// rejected one next to an accepted one
+	ex2 := []controller.Output{{Type: o2, Kind: controller.OutputExclusive}}
+	sh2 := []controller.Output{{Type: o2, Kind: controller.OutputShared}}
+	c7 := decl{name: "c7", inputs: []controller.Input{rin(t2, "", controller.InputWeak)}, outputs: ex2}
+	c8 := decl{name: "c8", inputs: []controller.Input{rin(t1, "a", controller.InputWeak)}, outputs: sh2}
+	c9 := decl{name: "c9", inputs: []controller.Input{rin(t1, "", controller.InputStrong)}, outputs: ex2}
+	c10 := decl{name: "c10", inputs: []controller.Input{rin(t1, "", controller.InputWeak)}, outputs: sh2}
+	c7b := decl{name: "c7", inputs: []controller.Input{rin(t1, "", controller.InputWeak)}, outputs: sh2} // same name as c7
+	bad := decls()[2]                                                                                    // c3-dupkeys: claims o2, then fails on its second input
+	pairs := [][2]decl{{c7, c8}, {c7, c9}, {c8, c10}, {c7, c7b}, {bad, c8}, {bad, c9}}
+	pb := []int{0, 1, 2}
+	if tier == "thorough" {
+		pb = []int{0, 1, 2, 3}
+	}
+	for _, pr := range pairs {
+		sc := twoRegistrars(pr[0], pr[1], pb)
+		sc.MaxExecs = 80000
+		if tier == "thorough" {
+			sc.MaxExecs = 5000000
 		}
 		out = append(out, sc)
 	}
